@@ -33,13 +33,14 @@ pub struct OpW {
     pub consume: u32,
     pub droppipe: u32,
     pub awaitinline: u32,
+    pub awaitjoin: u32,
     pub consumeinline: u32,
     pub setdepth: u32,
 }
 
 impl Default for OpW {
     fn default() -> OpW {
-        OpW { desync: 10, sync: 8, trysync: 4, futdesync: 6, futsync: 4, after: 3, await_: 8, syncwait: 2, pollonce: 3, dropfut: 2, detach: 1, release: 1, opengate: 4, rewake: 1, waitfor: 2, yield_: 2, suspend: 0, awaitsuspend: 0, resume: 0, dropresumer: 0, pipein: 0, pipe: 0, consume: 0, droppipe: 0, awaitinline: 2, consumeinline: 0, setdepth: 0 }
+        OpW { desync: 10, sync: 8, trysync: 4, futdesync: 6, futsync: 4, after: 3, await_: 8, syncwait: 2, pollonce: 3, dropfut: 2, detach: 1, release: 1, opengate: 4, rewake: 1, waitfor: 2, yield_: 2, suspend: 0, awaitsuspend: 0, resume: 0, dropresumer: 0, pipein: 0, pipe: 0, consume: 0, droppipe: 0, awaitinline: 2, consumeinline: 0, setdepth: 0, awaitjoin: 2 }
     }
 }
 
@@ -224,6 +225,7 @@ pub fn op_strategy(p: &Profile) -> BoxedStrategy<Op> {
         (w.pipe, (u8s, u8s, u8s, pipe_body.clone(), u8s).prop_map(|(o, s, depth, body, slot)| Op::Pipe { o, s, depth, body, slot, id: 0 }).boxed()),
         (w.consume, (u8s, u8s).prop_map(|(slot, k)| Op::Consume { slot, k }).boxed()),
         (w.awaitinline, u8s.prop_map(|slot| Op::AwaitInline { slot }).boxed()),
+        (w.awaitjoin, (u8s, u8s).prop_map(|(a, b)| Op::AwaitJoin { a, b }).boxed()),
         (w.setdepth, (u8s, u8s).prop_map(|(slot, depth)| Op::SetDepth { slot, depth }).boxed()),
         (w.consumeinline, (u8s, prop::bool::weighted(0.4)).prop_map(|(slot, drop_on_wake)| Op::ConsumeInline { slot, drop_on_wake }).boxed()),
         (w.droppipe, u8s.prop_map(|slot| Op::DropPipe { slot }).boxed()),
@@ -301,7 +303,7 @@ fn lifecycle(p: &Profile) -> BoxedStrategy<Vec<Op>> {
     let small_plain = leaf_steps(&p.stepw, (0, 1), false);
     let kind = union(vec![(w.futdesync.max(1), Just(0u8).boxed()), (w.futsync, Just(1u8).boxed()), (w.after, Just(2u8).boxed())]);
     let mid = (0u8..11, small_plain.clone()).boxed();
-    let term = prop_oneof![4 => Just(0u8), 3 => Just(1u8), 2 => Just(2u8), 1 => Just(3u8), 1 => Just(4u8)];
+    let term = prop_oneof![4 => Just(0u8), 3 => Just(1u8), 2 => Just(2u8), 1 => Just(3u8), 1 => Just(4u8), 2 => Just(5u8)];
     ((u8s, u8s, u8s), kind, (small_fut.clone(), small_fut, small_plain), vec(mid, 0..=4), term)
         .prop_map(|((o, slot, g), kind, (pre, post, plain), mids, term)| {
             let mut out = vec![];
@@ -321,6 +323,12 @@ fn lifecycle(p: &Profile) -> BoxedStrategy<Vec<Op>> {
                     8..=9 => Op::Desync { o, body: b, id: 0 },
                     _ => Op::Rewake { g },
                 });
+            }
+            if term == 5 {
+                // a second future on the same object, and one task awaiting both with one waker
+                let slot2 = slot.wrapping_add(64);
+                out.push(Op::FutDesync { o, body: vec![Step::Touch], slot: slot2, id: 0 });
+                out.push(Op::AwaitJoin { a: slot, b: slot2 });
             }
             match term {
                 0 => out.push(Op::Await { slot }),
